@@ -52,11 +52,11 @@ CHECKS = {
          "Expected paths from model/spec.go with the documented tag priority; tag values without dots (commas allowed: the whole tag value is the key).",
          "DESIGN.md section 5 C10"),
  "C11": ("exhaustive catalogue of built-in tests x types x formatter configurations + " + RAPID + "random precedence of formatter levels",
-         "Part A enumerates every built-in test of every schema type, required / not_nil / coerce and the front-end decode failures, in both modes and eight formatter configurations (default; i18n with language en / es / a regional key es-MX / none / unknown; i18n with a configured context key named or not): code, type, params, value reference, non-empty message without placeholders. The message must be the rendering of THIS cell's language. A second enumeration repeats the test / Required cells with a MessageFunc that renders the issue it is handed: what it saw must be what the issue finally says. Part B: random schemas with marker messages at test, execution and global (plain or i18n) level: each issue must carry the most specific marker and the language of this execution's context. Part C: consecutive undecodable requests under six formatter configurations must each carry their own execution's message. Exhaustive for the catalogue, exploration for precedence.",
+         "Part A enumerates every built-in test of every schema type, required / not_nil / coerce and the front-end decode failures, in both modes and eight formatter configurations (default; i18n with language en / es / a regional key es-MX / none / unknown; i18n with a configured context key named or not): code, type, params, value reference, non-empty message without placeholders. The message must be the rendering of THIS cell's language. A second enumeration repeats the test / Required cells with a MessageFunc that renders the issue it is handed: what it saw must be what the issue finally says. Part B: random schemas with marker messages at test, execution and global (plain or i18n) level: each issue must carry the most specific marker and the language of this execution's context. A further enumeration edits the caller's OneOf option slice after construction: the list an issue reports must be the list the test decides by. Part C: consecutive undecodable requests under six formatter configurations must each carry their own execution's message. Exhaustive for the catalogue, exploration for precedence.",
          "Expected codes and param keys from zconst / reference.md (model/preds.go DefaultParams); Bool True/False accept either documented code.",
          "DESIGN.md section 5 C11"),
  "C12": (RAPID + "recorder callbacks everywhere; invariants over the totally ordered event log of one execution",
-         "Spec-free invariants over the log of callback invocations and issue creations: argument contract (value for primitive tests, non-nil pointer with the address of the governed destination otherwise, computed by reflection), ctx.Get equals exactly this call's WithCtxValue, PostTransform discipline (declaration order, at most once, stop at first error, never after an issue, all on success, also for a node that used its Catch value, error wrapped at the node's path even when the returned error wraps or joins a ZogIssue), Preprocess failure (Parse: string-typed and any-typed functions; Validate: pointer-typed functions) silences the wrapped schema and every implied Preprocess issue is reported; every test / custom function is called exactly as often as the documented pipeline says (Default before Required, not where the value is absent or un-coercible). One schema object placed at several positions with different destination types, callbacks on user-defined named primitive types, and sibling derivations (Pick/Omit/Extend made from the schema and given their own callbacks, which must never run) are covered by dedicated sub-checks. Both modes, all nestings. Exploration.",
+         "Spec-free invariants over the log of callback invocations and issue creations: argument contract (value for primitive tests, non-nil pointer with the address of the governed destination otherwise, computed by reflection), ctx.Get equals exactly this call's WithCtxValue (a key passed twice: the last value), PostTransform discipline (declaration order, at most once, stop at first error, never after an issue, all on success, also for a node that used its Catch value, error wrapped at the node's path even when the returned error wraps or joins a ZogIssue), Preprocess failure (Parse: string-typed and any-typed functions; Validate: pointer-typed functions) silences the wrapped schema and every implied Preprocess issue is reported; every test / custom function is called exactly as often as the documented pipeline says (Default before Required, not where the value is absent or un-coercible). One schema object placed at several positions with different destination types, callbacks on user-defined named primitive types, and sibling derivations (Pick/Omit/Extend made from the schema and given their own callbacks, which must never run) are covered by dedicated sub-checks. Both modes, all nestings. Exploration.",
          "Recorders are supplied by the harness and never panic; tests carry no Message so every issue passes the logging execution formatter.",
          "DESIGN.md section 5 C12"),
  "C13": (RAPID + "differential: Validate(&v) versus Parse(toMap(v), &fresh) on fully populated values",
@@ -72,7 +72,7 @@ CHECKS = {
          "Content-Type spellings outside the documented form and JSON followed by trailing data are outside the domain (skipped).",
          "DESIGN.md section 5 C15"),
  "C16": (RAPID + "model-based state machine over derivation histories; every live schema re-probed against a hand-written equivalent after every step",
-         "Histories of base (a sixth widened to 9 and more fields) / Pick / Omit (also removing nothing) / Extend / Merge / later TestFunc / PostTransform (with test options) / hooks-only bases without fields over a growing set of live schemas, keys spelled lower-case, Go-style or mixed; a model (field map, test ids, PostTransform ids) is updated with the documented set semantics and after every step every live schema must behave like a schema written out by hand from its model (issues, destination, callback sequence). Exploration over histories.",
+         "Histories of base (a sixth widened to 9 and more fields) / Pick / Omit (also removing nothing) / Extend / Merge / later TestFunc / PostTransform (with test options) / hooks-only bases without fields over a growing set of live schemas, keys spelled lower-case, Go-style or mixed; a model (field map, test ids, PostTransform ids) is updated with the documented set semantics and after every step every live schema must behave like a schema written out by hand from its model (issues, destination, callback sequence); Merge's operands are handed over as a spread slice with spare capacity, which must stay as the caller built it. Exploration over histories.",
          "Keys picked/omitted are the operand's own keys.",
          "DESIGN.md section 5 C16"),
  "C17": (RAPID + "random builder chains applied call by call, read literally into a model node and compared with the specification; shared schema objects; WithCoercer locality catalogue",
